@@ -6,8 +6,8 @@
    raw-quoted / escape-quoted arguments), parenthesised by the documented precedence (not > and > or,
    juxtaposition = and).  parse_grammar / parse_filter: the model of flowfilter.parse (pyparsing grammar). *)
 From Coq Require Import List Bool NArith.
-From MV Require Import Base.Bytes Gen.FlowFilterAtoms Model.FilterGrammar Model.FilterBody
-  Proofs.FilterGrammarExpr Proofs.FilterGrammarC42 Proofs.FilterBody.
+From MV Require Import Base.Bytes Gen.FlowFilterAtoms Model.FilterGrammar Model.FilterBody Model.FilterHeader
+  Proofs.FilterGrammarExpr Proofs.FilterGrammarC42 Proofs.FilterBody Proofs.FilterHeader.
 Import ListNotations.
 
 (* The full statement (every rendering of every tree over table atoms is accepted with the documented meaning)
@@ -98,3 +98,45 @@ Theorem C42_body_absent_not_searched : forall search, fbod search (HttpB None (S
   /\ fbod_request search (HttpB None (Some None) None) = false /\ fbod_response search (HttpB None (Some None) None) = false.
 Proof. exact absent_bodies_not_searched. Qed.
 Print Assumptions C42_body_absent_not_searched.
+
+(* Header operators, for every regex engine and every list of header fields (absent, once, repeated, any case of
+   the name).  Content-type operators (t tq ts, and a with the asset patterns): some Content-Type field VALUE is
+   matched, each value searched on its own; with no such field nothing is searched and the verdict is false even
+   for a regex matching the empty string.  Header operators (h hq hs): the serialised header block of each
+   message that is present is searched. *)
+Theorem C42_content_type_each_value : forall search fields,
+  check_content_type search fields = existsb search (ct_values fields).
+Proof. exact check_ct_spec. Qed.
+Print Assumptions C42_content_type_each_value.
+Theorem C42_content_type_absent : forall search fields, ct_values fields = [] -> check_content_type search fields = false.
+Proof. exact check_ct_absent. Qed.
+Print Assumptions C42_content_type_absent.
+Theorem C42_content_type_some_value : forall search fields v,
+  In v (ct_values fields) -> search v = true -> check_content_type search fields = true.
+Proof. exact check_ct_some_value. Qed.
+Print Assumptions C42_content_type_some_value.
+Theorem C42_t : forall search f,
+  fcontent_type search f = existsb search (ct_values (req_fields f) ++ ct_values (resp_fields f)).
+Proof. exact fct_spec. Qed.
+Print Assumptions C42_t.
+Theorem C42_tq : forall search f, fcontent_type_request search f = existsb search (ct_values (req_fields f)).
+Proof. exact fctq_spec. Qed.
+Print Assumptions C42_tq.
+Theorem C42_ts : forall search f, fcontent_type_response search f = existsb search (ct_values (resp_fields f)).
+Proof. exact fcts_spec. Qed.
+Print Assumptions C42_ts.
+Theorem C42_a : forall types f,
+  fasset types f = existsb (fun v => existsb (fun i => i v) types) (ct_values (resp_fields f)).
+Proof. exact fasset_spec. Qed.
+Print Assumptions C42_a.
+Theorem C42_h : forall search f, fhead search f = existsb search (present_blocks f).
+Proof. exact fhead_spec. Qed.
+Print Assumptions C42_h.
+Theorem C42_hq : forall search f,
+  fhead_request search f = existsb search (match f with HttpH rq _ => [headers_bytes rq] | OtherH => [] end).
+Proof. exact fhead_request_spec. Qed.
+Print Assumptions C42_hq.
+Theorem C42_hs : forall search f,
+  fhead_response search f = existsb search (match f with HttpH _ (Some r) => [headers_bytes r] | _ => [] end).
+Proof. exact fhead_response_spec. Qed.
+Print Assumptions C42_hs.
